@@ -118,3 +118,113 @@ pub fn replay_sim(v: &Value, oracle: Oracle) -> Result<Option<String>, String> {
     let verdict = oracle(&case, &run);
     Ok(verdict.violation)
 }
+
+// ---------------------------------------------------------------------------
+// C20: metamorphic pairs (aggregate vs its dependencies)
+
+/// Picks the aggregate to test: a requested one if any, else the last aggregate of the graph
+/// (which is then requested in run A).
+pub fn c20_pair(case: &SimCase) -> Option<(SimCase, SimCase, usize)> {
+    use super::graph::Kind;
+    let g = &case.graph;
+    let aggs: Vec<usize> = (0..g.n()).filter(|&i| g.targets[i].kind == Kind::Aggregate).collect();
+    let gi = case
+        .roots
+        .iter()
+        .copied()
+        .find(|r| aggs.contains(r))
+        .or_else(|| aggs.last().copied())?;
+    let others: Vec<usize> = case.roots.iter().copied().filter(|&r| r != gi).collect();
+    let mut a_roots = vec![gi];
+    a_roots.extend(others.iter().copied());
+    let mut b_roots: Vec<usize> = g.edges(gi);
+    b_roots.extend(others.iter().copied());
+    if b_roots.is_empty() {
+        return None;
+    }
+    let mut a = case.clone();
+    a.roots = a_roots;
+    a.watch = false;
+    a.early_term = false;
+    a.notices.clear();
+    let mut b = a.clone();
+    b.roots = b_roots;
+    Some((a, b, gi))
+}
+
+pub fn eval_c20_sim(case: &SimCase) -> CaseResult {
+    use super::graph::Kind;
+    let mut res = CaseResult {
+        sample: case_summary(case),
+        ..Default::default()
+    };
+    let (a, b, gi) = match c20_pair(case) {
+        Some(x) => x,
+        None => {
+            res.classes.push("no-aggregate".into());
+            return res;
+        }
+    };
+    let g = &case.graph;
+    let ra = run_case(&a);
+    let rb = run_case(&b);
+    if ra.step_bound_hit || rb.step_bound_hit || ra.config_error.is_some() || rb.config_error.is_some() {
+        res.inconclusive = Some("step bound / configuration".into());
+        return res;
+    }
+    let oa = observe(&a, &ra);
+    let ob = observe(&b, &rb);
+    let nested = g.edges(gi).iter().any(|&d| g.targets[d].kind == Kind::Aggregate);
+    let empty = g.edges(gi).is_empty();
+    let has_svc = g.has_service_behind(gi);
+    let mut classes = vec![];
+    if nested {
+        classes.push("nested-aggregate".to_string());
+    }
+    if empty {
+        classes.push("empty-aggregate".to_string());
+    }
+    if has_svc {
+        classes.push("aggregate-over-service".to_string());
+    }
+    if g.has_build_behind(gi) {
+        classes.push("aggregate-over-build".to_string());
+    }
+    let failure = a.fail.iter().enumerate().any(|(i, &f)| f != 0 && g.closure(&a.roots).contains(&i));
+    if failure {
+        classes.push("failing-member".to_string());
+    }
+    res.nontrivial = nested || empty || has_svc;
+    res.fingerprint = format!("{:?}|{:?}", classes, g.classes(&a.roots));
+    res.classes = classes;
+    res.sample = json!({"graph": case_summary(case), "aggregate": g.ids(gi),
+        "request_A": a.roots.iter().map(|&r| g.ids(r)).collect::<Vec<_>>(), "request_B": b.roots.iter().map(|&r| g.ids(r)).collect::<Vec<_>>()});
+    let replay = |msg: &str| json!({"engine": "SIM-c20", "case": serde_json::to_value(case).unwrap(), "message": msg,
+        "summary": case_summary(case), "aggregate": g.ids(gi),
+        "A": {"requested": a.roots.iter().map(|&r| g.ids(r)).collect::<Vec<_>>(), "observed": format!("{:?}", oa), "history": render_events(&ra.events)},
+        "B": {"requested": b.roots.iter().map(|&r| g.ids(r)).collect::<Vec<_>>(), "observed": format!("{:?}", ob), "history": render_events(&rb.events)}});
+    let fail = |mut res: CaseResult, sig: &str, msg: String| {
+        res.signature = Some(format!("sim-c20:{}", sig));
+        res.replay = replay(&msg);
+        res.violation = Some(msg);
+        res
+    };
+    if oa.verdict_ok != ob.verdict_ok {
+        return fail(res, "verdict", format!("requesting aggregate {} ends {:?}, requesting its dependencies ends {:?}", g.ids(gi), oa.verdict_ok, ob.verdict_ok));
+    }
+    if !oa.failed_named_ok || !ob.failed_named_ok {
+        return fail(res, "named", "the error does not name a failing member in one of the two runs".into());
+    }
+    if !failure {
+        if oa.keep_alive != ob.keep_alive {
+            return fail(res, "keep-alive", format!("requesting aggregate {}: stays alive = {:?}; requesting its dependencies: {:?}", g.ids(gi), oa.keep_alive, ob.keep_alive));
+        }
+        if oa.ran != ob.ran || oa.skipped != ob.skipped {
+            return fail(res, "scripts", format!("requesting aggregate {} ran {:?} / skipped {:?}; requesting its dependencies ran {:?} / skipped {:?}", g.ids(gi), oa.ran, oa.skipped, ob.ran, ob.skipped));
+        }
+        if oa.services != ob.services {
+            return fail(res, "services", format!("services started differ: {:?} vs {:?}", oa.services, ob.services));
+        }
+    }
+    res
+}
